@@ -39,8 +39,12 @@ def _ensure_updated_strategy_flag_set(
     unexpected_keys: Iterable[str],
     error_msgs: Iterable[str],
 ):
-    device = state_dict[list(state_dict.keys())[0]].device
-    if prefix + "updated_strategy" not in state_dict:
+    # A checkpoint of the old (unwhitened) format holds the variational parameters of this strategy but no flag.
+    # A partial state dict (strict=False) without them - e.g. only kernel hyperparameters or inducing points - is not
+    # a checkpoint of this strategy's variational distribution at all and must not mark it as unwhitened
+    own_keys = [key for key in state_dict if key.startswith(prefix + "_variational_distribution.")]
+    if own_keys and prefix + "updated_strategy" not in state_dict:
+        device = state_dict[own_keys[0]].device
         state_dict[prefix + "updated_strategy"] = torch.tensor(False, device=device)
         warnings.warn(
             "You have loaded a variational GP model (using `VariationalStrategy`) from a previous version of "
